@@ -90,7 +90,8 @@ def evaluate(mod, cases, res: Result, with_model=True):
             raise RuntimeError("harness crashed on a case:\n" + io["harness_crash"] + json.dumps(c, default=str)[:2000])
     model_cases = [mod.model_case(c, io) for c, io in zip(cases, impl_outs)]
     model_outs = [None] * len(cases)
-    if with_model:
+    beyond = getattr(mod, "beyond_model", None)
+    if with_model or beyond is not None:
         idx = [k for k, mc in enumerate(model_cases) if mc is not None]
         outs = core.run_model([model_cases[k] for k in idx])
         for k, o in zip(idx, outs):
@@ -108,11 +109,16 @@ def evaluate(mod, cases, res: Result, with_model=True):
             res.stats[t] += 1
         if len(res.samples) < 3 and nontriv:
             res.samples.append({"case": c, "impl": io if len(json.dumps(io, default=str)) < 6000 else "(large)"})
+        if beyond is not None and mo is not None and "ok" in mo and beyond(c, mo["ok"], io):
+            # the exact model says a stored value exceeds its dtype's range: numpy wraps around / overflows there, which
+            # neither the model nor any property is about -- the case is counted and left out
+            res.stats["skipped:beyond_dtype_range"] += 1
+            continue
         fails = mod.oracle(c, io)
         if fails:
             found.append((c, "oracle", fails, io, mo))
             continue
-        if mo is not None:
+        if mo is not None and with_model:
             res.traces += 1
             if "error" in mo:
                 found.append((c, "disagree", ["model error: " + str(mo["error"])], io, mo))
